@@ -97,6 +97,7 @@ class CCodeGenerator(CodeGenerator):
     ) -> None:
         super().__init__(ode, remove_unused=remove_unused)
         self._printer = GotranCCodePrinter()
+        self._check_renamed_names()
         setattr(self, "_formatter", get_formatter(format=format))
 
     @property
